@@ -82,7 +82,7 @@ CHECKS['C15'] = dict(
 
 _TBL = H('h_table.c', 'asan')
 _tbl_bounds = {'quick': 'structure sweep: all increasing key sequences of length<=4 from K9={e,00,0000,01,7f,80,8000,ff,ffff} x value sizes {0,1,600}^n x 6 compression types x restart {1,2,16} x block size 1024 x foreign prefix {0,13}; cadence sweep n in {r-1,r,r+1,2r,2r+1,100,1000} for r in {1,2,3,16,17} x 3 key families; length sweep (klen,vlen) in {0,1,127,128,129,16383,16384,16385}^2 alone and between two small entries; level sweep 40 levels INT_MIN..INT_MAX x 6 types',
-               'thorough': 'as quick with sequences of length<=5, value sizes {0,1,600,1100}, restart {1,2,3,16,17}, block size {1024,1025,4096}, prefix {0,1,13,4096}, lengths up to 2^21'}
+               'thorough': 'as quick with sequences of length<=5, value sizes {0,1,600,1100}, restart {1,2,3,16,17}, block size {1024,1025,4096}, prefix {0,1,13,4096}, lengths up to 2^21; giant: default options with one value of 2^30 incompressible bytes, and zlib with block size 2^33 holding two values of 2^31 zero bytes (one data block above 4 GiB)'}
 
 CHECKS['C01'] = dict(
     level=MC, engine='seqx',
@@ -147,8 +147,8 @@ CHECKS['C08'] = dict(
     jobs=[dict(name='gate', spec=H('h_gate.c', 'asan'), args=[])],
     states_key='cases', transitions_key='transitions', traces_key='cases',
     rule='one case = (key index sequence, small/big value vector, configuration); signature = (#blocks, #refused, #accepted)',
-    bounds={'quick': 'sequences of length<=4 over 8 short keys (4681) x 2^n value vectors x {restart 16, restart 1}, the same sequences over a second pool of 8 keys of 4-5 bytes (restart 16), compression none, block size 1024; 7 exclusive-create scenarios',
-            'thorough': 'length<=5 (37449 sequences) with three configurations incl. lz4; length 6 (262144 sequences x 64 value vectors) in one configuration'},
+    bounds={'quick': 'sequences of length<=4 over 8 short keys (4681) x 2^n value vectors x {restart 16, restart 1}, the same sequences over a second pool of 8 keys of 4-5 bytes (restart 16), compression none, block size 1024; 7 exclusive-create scenarios; keys and values of 2^32 and 2^32+10 bytes (virtual source: refused, or accepted and then read back in full)',
+            'thorough': 'length<=5 (37449 sequences) with three configurations incl. lz4; length 6 (262144 sequences x 64 value vectors) in one configuration; oversize keys and values as quick'},
     nonzero=['cases', 'cases_with_refusal', 'excl_cases'],
     assumptions=['the reference gate is the property statement itself (unsigned byte-wise order, proper prefix first)', 'the finished file is judged by the independent decoder'],
     budget={'quick': 240, 'thorough': 1800},
@@ -405,7 +405,7 @@ CHECKS['C11'] = dict(
     states_key='states', transitions_key='transitions', traces_key='cases',
     rule='one case = one encoded file; transitions = lookups/seeks compared; signature = (version, compression, #blocks, #restarts, prefix)',
     bounds={'quick': 'key subsets of K9 up to size 4; full product partition x restarts x sharing at v2/none; 4^blocks separator choices per partition; version x 6 compressions x prefix x 2 restart layouts per partition; 3 restart layouts of a 4.0 GiB block',
-            'thorough': 'subsets up to size 5; block_builder round trip of a 6 GiB block (four 1.5 GiB values, restart interval 1 and 2)'},
+            'thorough': 'subsets up to size 5; block_builder round trip of a 6 GiB block (four 1.5 GiB values, restart interval 1 and 2); files whose single zlib block is stored as >= 1 GiB (value of 2^30 bytes, v2; 2^30-300000, v1; 100 MiB)'},
     nonzero=['cases', 'transitions', 'restart64_blocks', 'partial_sharing_files'],
     assumptions=['the encoder is cross-checked by its own decoder on every file', 'values are 1-3 bytes: value handling is covered by C01'],
     budget={'quick': 300, 'thorough': 2400},
